@@ -24,7 +24,7 @@ CHECKS = {
         technique="SMT-based translation validation (symbolic execution of emitted Simplicity, z3 QF_UFBV); fold functions as uninterpreted functions",
         text="One fold per program; list bounds 2..256 (512 thorough), EVERY length, literal / witness / computed lists, element types u8,(u8,u8),Option<u8>,[u8;3]; "
              "fold functions both arbitrary (all jets uninterpreted: the verdict holds for every f) and concrete order-sensitive ones (replayable). The solver proves for all element values "
-             "and accumulators that the emitted DAG equals the left-to-right source-level fold including failure; for N<=16 one query covers all lengths at once (symbolic block-presence bits).",
+             "and accumulators that the emitted DAG equals the left-to-right source-level fold including failure; for N<=32 (128 thorough) one query covers all lengths at once (symbolic block-presence bits, fold function arbitrary).",
         note=TRUST_E1),
     "C09": dict(
         engine="simsym", category="translation_validation", ref="DESIGN.md 2, 5 (C09)",
@@ -46,7 +46,7 @@ CHECKS = {
         technique="SMT (z3 QF_UFBV): the jet under test is an uninterpreted function on both sides; equivalence of emitted DAG and source-level call for all argument values and all jet meanings",
         text="For EVERY jet the library lists in Elements::ALL (469 non-reserved) a one-call program is generated from the library's own signature table in three call shapes; with the jet uninterpreted "
              "the solver proves that the bits entering the jet are the arguments in written order in the documented product layout and that the result is delivered unchanged. The ~230 jets with a bit-vector "
-             "model are additionally run interpreted and validated against the real C jets on solver-chosen points. Reserved/unknown jets and wrong arities must be rejected. "
+             "model are additionally run interpreted and compared with the real C jets on 27 (thorough: 203) solver-chosen / random / boundary argument tuples each. Reserved/unknown jets and wrong arities must be rejected. "
              "Not claimed: that each signature equals external documentation, and the jets' arithmetic (FFI).",
         note=TRUST_E1),
     "C14": dict(
